@@ -169,3 +169,5 @@ c13!(c13_ipv6_4_raw, 0x21, 0x20, 36, 4, false, 38);
 c13!(c13_unix_7_wf, 0x21, 0x32, 216, 7, true, 218);
 c13!(c13_unix_3_raw, 0x20, 0x30, 216, 3, false, 218);
 c13!(c13_unspec_12, 0x21, 0x02, 0, 12, false, 14);
+// thorough: a TLV value that needs the high length byte (300 bytes)
+c13!(c13_ipv4_303_wf, 0x21, 0x11, 12, 303, true, 306);
